@@ -100,7 +100,7 @@ m("c17_id_arm_swapped", "src/generated/ids.rs", None, None, "C17", 0)
 # ---- C18
 m("c18_description_when_disabled", E, "                    if q.options.describe {\n", "                    if q.options.describe || c.source.is_none() {\n", "C18")
 m("c18_description_pushed_twice", E, "                        q.descriptions\n                            .push(Description::Constant(s.into(), c.clone()));", "                        q.descriptions\n                            .push(Description::Constant(s.into(), c.clone()));\n                        if c.tokens.len() > 3 {\n                            q.descriptions.push(Description::Constant(s.into(), c.clone()));\n                        }", "C18")
-m("c18_describe_changes_value", E, "                    Ok(Numeric::new(c.value.clone(), c.unit))", "                    if q.options.describe && c.tokens.len() == 1 {\n                        return Ok(Numeric::new(c.value.clone().round(), c.unit));\n                    }\n                    Ok(Numeric::new(c.value.clone(), c.unit))", "C18")
+m("c18_describe_changes_value", E, "                    Ok(Numeric::new(c.value.clone(), c.unit))", "                    if q.options.describe && c.tokens.len() == 3 {\n                        return Ok(Numeric::new(c.value.clone().round(), c.unit));\n                    }\n                    Ok(Numeric::new(c.value.clone(), c.unit))", "C18")
 # ---- C19
 m("c19_limit_11", A, "spec.limit = 12;", "spec.limit = 11;", "C19")
 m("c19_numer_denom_swapped", A, 'write!(out, "{}/{}", value.value.numer(), value.value.denom())?;', 'write!(out, "{}/{}", value.value.denom(), value.value.numer())?;', "C19")
